@@ -222,6 +222,10 @@ pub fn emit_module(k: usize, spec: &AppSpec) -> String {
     }
     // ---- blueprint
     s.push_str("pub fn blueprint() -> Blueprint {\n    let mut bp0 = Blueprint::new();\n");
+    if spec.comps.iter().any(|c| c.route.as_ref().is_some_and(|r| !r.path_param_fields.is_empty())) {
+        // the constructor (and error handler) of PathParams<T> come from the framework crate
+        s.push_str("    bp0.import(pavex::blueprint::from![pavex]);\n");
+    }
     emit_regs(k, spec, &spec.bp, 0, &mut s);
     s.push_str("    bp0\n}\n");
     s
